@@ -127,6 +127,43 @@ func c09Create(fs *Facts, f *File) {
 	store := len(f.Calls(cr, "s.creatingTreasures.Store")) >= 1
 	get := len(f.Calls(cr, "s.beaconKey.Get")) >= 1
 	del := len(f.Calls(save, "s.creatingTreasures.Delete")) >= 1
+	// the tracker entry may go only once the record is visible under its key: in SaveFunction no
+	// creatingTreasures.Delete in front of the first beaconKey.Add (audit7 mutant 09c) ...
+	if adds := f.Calls(save, "s.beaconKey.Add"); len(adds) > 0 {
+		for _, d := range f.Calls(save, "s.creatingTreasures.Delete") {
+			if d.Pos() < adds[0].Pos() {
+				fs.Tri("createSingleFlight", No, c09Swamp+":"+itoa(f.Line(d)))
+				return
+			}
+		}
+	}
+	// ... and a body that drops the entry of a record it created and did not save (PatchFields) must do so while it
+	// still holds the guard: the deferred cleanup is registered AFTER the deferred release (audit7 mutant 09b)
+	if pf, err := Load(c09Patch); err == nil {
+		if fn := pf.Func("swamp", "PatchFields"); fn != nil {
+			var rel, cleanup ast.Node
+			ast.Inspect(fn, func(x ast.Node) bool {
+				if d, ok := x.(*ast.DeferStmt); ok {
+					src := pf.Str(d)
+					switch {
+					case strings.Contains(src, "creatingTreasures.Delete"):
+						if cleanup == nil {
+							cleanup = d
+						}
+					case strings.Contains(src, ".ReleaseTreasureGuard"):
+						if rel == nil {
+							rel = d
+						}
+					}
+				}
+				return true
+			})
+			if cleanup != nil && (rel == nil || cleanup.Pos() < rel.Pos()) {
+				fs.Tri("createSingleFlight", No, c09Patch+":"+itoa(pf.Line(cleanup)))
+				return
+			}
+		}
+	}
 	switch {
 	case lock && unlock && load && store && get && del:
 		fs.Tri("createSingleFlight", Yes, where)
@@ -647,6 +684,28 @@ func c09LockHelperOK(f *File, fn *ast.FuncDecl) bool {
 	return loop && cmp
 }
 
+// ccDelegate resolves one level of delegation: for `func (s *T) A(...) R { return s.B(...) }` it answers B's declaration,
+// otherwise fn itself.
+func ccDelegate(f *File, fn *ast.FuncDecl, recv string) *ast.FuncDecl {
+	if fn == nil || fn.Body == nil || len(fn.Body.List) != 1 {
+		return fn
+	}
+	ret, ok := fn.Body.List[0].(*ast.ReturnStmt)
+	if !ok || len(ret.Results) != 1 {
+		return fn
+	}
+	call, ok := ret.Results[0].(*ast.CallExpr)
+	if !ok {
+		return fn
+	}
+	if sel, ok := call.Fun.(*ast.SelectorExpr); ok && f.Str(sel.X) == "s" {
+		if inner := f.Func(recv, sel.Sel.Name); inner != nil {
+			return inner
+		}
+	}
+	return fn
+}
+
 // c09DeletePaths decides shiftByKeysOneSession and deleteTrustsHandlerResult.
 func c09DeletePaths(fs *Facts, f *File) {
 	// ShiftByKeys: no guard session of its own around a Clone; what it hands out is deleteHandlerIf's second result
@@ -670,6 +729,7 @@ func c09DeletePaths(fs *Facts, f *File) {
 	if fn := f.Func("swamp", "DeleteTreasure"); fn == nil {
 		fs.Tri("deleteTrustsHandlerResult", Unknown, c09Swamp)
 	} else {
+		fn = ccDelegate(f, fn, "swamp")
 		w := c09Swamp + ":" + itoa(f.Line(fn))
 		calls := append(f.Calls(fn, "s.deleteHandler"), f.Calls(fn, "s.deleteHandlerIf")...)
 		if len(calls) != 1 {
